@@ -309,7 +309,11 @@ func genRPC(c *Chooser, o ScenOpts) *RPCPlan {
 		nreq = c.Intn(maxInt(o.MaxMsgs, 3) + 1)
 	}
 	for i := 0; i < nreq; i++ {
-		cp.Msgs = append(cp.Msgs, MsgSpec{Data: canonBytes(genMessage(c, md.Input(), mo, 0)), Compressed: c.Prob(0.6)})
+		ms := MsgSpec{Data: canonBytes(genMessage(c, md.Input(), mo, 0)), Compressed: c.Prob(0.6)}
+		if nreq > 1 && c.Prob(0.15) {
+			ms.Data = []byte{} // the all-defaults message: zero bytes in the binary codec, anywhere in a stream
+		}
+		cp.Msgs = append(cp.Msgs, ms)
 	}
 	if form == FormREST {
 		cp.Codec, cp.ShortCT = "json", false
@@ -342,6 +346,10 @@ func genRPC(c *Chooser, o ScenOpts) *RPCPlan {
 		rp.ErrInHeaders = c.Bool()
 	}
 	for i := 0; i < nresp; i++ {
+		if nresp > 1 && c.Prob(0.15) {
+			rp.Msgs = append(rp.Msgs, MsgSpec{Data: []byte{}, Compressed: c.Prob(0.6)})
+			continue
+		}
 		rp.Msgs = append(rp.Msgs, MsgSpec{Data: canonBytes(genMessage(c, md.Output(), mo, 0)), Compressed: c.Prob(0.6)})
 	}
 	rp.Compression = Pick(c, "", "gzip", "deflate")
@@ -359,6 +367,7 @@ func genRPC(c *Chooser, o ScenOpts) *RPCPlan {
 		}
 	}
 	rp.TrailerStyle = Pick(c, "announce", "prefix")
+	rp.StrayHTTPTrailer = len(rp.Trailers) > 0 && c.Prob(0.15)
 	if rp.TrailerStyle == "announce" && c.Prob(0.4) {
 		rp.AnnounceCase = Pick(c, "lower", "upper", "given", "lines")
 	}
